@@ -838,7 +838,7 @@ fn main() {
     rep.assume("the arrow form has no filter on its first step in the grammar; the first-step placement uses the sequence(...) form");
     rep.assume("the parser currently parses `not X` as `X` in all three expression grammars (counter text_not_dropped_by_parser), so a filter containing `not` cannot reach either evaluator from program text; such filters are placed by substituting Expr::Unary{Not} into the AST of the same programs parsed with a placeholder filter, and loaded through Engine::load — signatures `not/*` come from that lane only");
     let threads = ncpu();
-    let filters = args.pick(6000usize, 200_000usize);
+    let filters = args.pick(4000usize, 120_000usize);
     let per_thread = filters / threads + 1;
     let batch = args.pick(10usize, 16usize);
     let parts = parallel(threads, args.seed ^ 0xC09, move |_ti, mut rng| {
